@@ -25,10 +25,15 @@
 #include "ola/network/TCPSocket.h"
 #include "libs/acn/BaseInflator.h"
 #include "libs/acn/HeaderSet.h"
+#include "libs/acn/RootInflator.h"
+#include "ola/acn/CID.h"
 #include "libs/acn/TCPTransport.h"
 #include "plugins/openpixelcontrol/OPCServer.h"
 #include "plugins/usbpro/BaseRobeWidget.h"
 #include "plugins/usbpro/BaseUsbProWidget.h"
+#include "plugins/usbpro/RobeWidget.h"
+#include "ola/rdm/UID.h"
+#include "ola/DmxBuffer.h"
 #undef private
 #undef protected
 
@@ -241,7 +246,75 @@ struct RpcFeeder : Feeder {
   }
 };
 
+// The real RobeWidget (label switch of RobeWidgetImpl::HandleMessage) with a DMX callback.
+struct RobeWidgetFeeder : Feeder {
+  ola::io::LoopbackDescriptor d;
+  std::auto_ptr<ola::plugin::usbpro::RobeWidget> w;
+  RobeWidgetFeeder() {
+    d.Init();
+    w.reset(new ola::plugin::usbpro::RobeWidget(&d, ola::rdm::UID(0x7a70, 1)));
+    w->SetDmxCallback(ola::NewCallback(this, &RobeWidgetFeeder::OnDmx));
+  }
+  void OnDmx() {
+    const ola::DmxBuffer &b = w->FetchDMX();
+    g_msgs.push_back("5:" + vh::hex(b.GetRaw(), b.Size()));
+  }
+  ola::io::ConnectedDescriptor *desc() { return &d; }
+  bool put(const uint8_t *p, size_t n) { return d.Send(p, n) == static_cast<ssize_t>(n); }
+  string state() { return vh::str(static_cast<int>(w->m_impl->m_state)); }
+};
+
+// A child inflator registered with a real RootInflator for one root vector: records what the root
+// layer passes down (vector, CID of the root header, data).
+class ChildRecorder : public ola::acn::InflatorInterface {
+ public:
+  explicit ChildRecorder(uint32_t vector) : m_vector(vector) {}
+  uint32_t Id() const { return m_vector; }
+  unsigned int InflatePDUBlock(ola::acn::HeaderSet *headers, const uint8_t *data, unsigned int len) {
+    uint8_t cid[ola::acn::CID::CID_LENGTH];
+    headers->GetRootHeader().GetCid().Pack(cid);
+    string payload = vh::hex(cid, sizeof(cid));
+    if (len) payload += vh::hex(data, len);
+    g_msgs.push_back(vh::str(m_vector) + ":" + payload);
+    return len;
+  }
+ private:
+  uint32_t m_vector;
+};
+
+// spec "@4,5" = child inflators for those root vectors, "@-" = none
+struct AcnRootFeeder : Feeder {
+  ola::io::LoopbackDescriptor d;
+  ola::acn::RootInflator root;
+  vector<ChildRecorder*> children;
+  std::auto_ptr<ola::acn::IncomingStreamTransport> t;
+  bool valid;
+  explicit AcnRootFeeder(const string &spec) : valid(true) {
+    d.Init();
+    if (spec != "@-") {
+      vector<string> vs = vh::split(spec.substr(1), ',');
+      for (size_t i = 0; i < vs.size(); i++) {
+        children.push_back(new ChildRecorder(static_cast<uint32_t>(vh::num(vs[i]))));
+        root.AddInflator(children.back());
+      }
+    }
+    t.reset(new ola::acn::IncomingStreamTransport(
+        &root, &d, ola::network::IPV4SocketAddress(ola::network::IPV4Address::Loopback(), 1)));
+    d.SetOnData(ola::NewCallback(this, &AcnRootFeeder::Ready));
+  }
+  ~AcnRootFeeder() { t.reset(); for (size_t i = 0; i < children.size(); i++) delete children[i]; }
+  void Ready() { if (valid) valid = t->Receive(); }
+  ola::io::ConnectedDescriptor *desc() { return &d; }
+  bool put(const uint8_t *p, size_t n) { return d.Send(p, n) == static_cast<ssize_t>(n); }
+  string state() {
+    return valid ? vh::str(static_cast<int>(t->m_state)) + "/" + vh::str(t->m_outstanding_data) : "X";
+  }
+  bool stopped() { return !valid; }
+};
+
 static Feeder *make_feeder(const string &proto) {
+  if (proto == "robew") return new RobeWidgetFeeder();
+  if (proto.compare(0, 8, "acnroot@") == 0) return new AcnRootFeeder(proto.substr(7));
   if (proto == "rpc") return new RpcFeeder();
   if (proto == "usbpro") return new UsbProFeeder();
   if (proto == "robe") return new RobeFeeder();
@@ -319,8 +392,8 @@ static string handle(const string &p) {
   }
   // <proto> <cap> <streamhex> <part>/<part>/...
   // rpc has a fifth field (the bodies the protobuf parser rejects), used by the model only
-  if (!((a.size() == 4 && (a[0] == "usbpro" || a[0] == "robe" || a[0] == "opc" || a[0] == "acn" ||
-                           a[0].compare(0, 4, "opc@") == 0)) ||
+  if (!((a.size() == 4 && (a[0] == "usbpro" || a[0] == "robe" || a[0] == "robew" || a[0] == "opc" || a[0] == "acn" ||
+                           a[0].compare(0, 4, "opc@") == 0 || a[0].compare(0, 8, "acnroot@") == 0)) ||
         (a.size() == 5 && a[0] == "rpc")))
     return "bad-op";
   size_t cap = vh::num(a[1]);
